@@ -17,6 +17,10 @@ thread_local! {
     static EV: RefCell<Vec<Value>> = const { RefCell::new(Vec::new()) };
 }
 static REAL_EV: std::sync::Mutex<Vec<Value>> = std::sync::Mutex::new(Vec::new());
+/// single-run mode: (output path, the run's reset line).  A simulation that is still busy 90 virtual seconds after the
+/// client has finished everything (tasks of the library exchanging packets for ever) is cut short there: the events are
+/// written with a final `lingering` event and the process exits.
+static LINGER_OUT: std::sync::OnceLock<(String, String)> = std::sync::OnceLock::new();
 
 fn now_us() -> u64 {
     if bach::is_active() { bach::time::Instant::now().elapsed_since_start().as_micros() as u64 } else { REAL_T0.get().map(|t| t.elapsed().as_micros() as u64).unwrap_or(0) }
@@ -25,6 +29,7 @@ static REAL_T0: std::sync::OnceLock<std::time::Instant> = std::sync::OnceLock::n
 
 fn emit(mut v: Value) {
     v.as_object_mut().unwrap().insert("t".into(), json!(now_us()));
+    if std::env::var_os("VERIF_PROGRESS").is_some() { eprintln!("EV {}", v); }
     if bach::is_active() { EV.with(|e| e.borrow_mut().push(v)); } else { REAL_EV.lock().unwrap().push(v); }
 }
 
@@ -308,8 +313,19 @@ fn run_sim_here(p: Plan) -> Vec<Value> {
             let mut gone = false;
             let drop_fin = p.drop_fin.clone();
             let mut fin_dropped = 0u32;
+            let mut npk = 0u64;
+            let progress = std::env::var_os("VERIF_PROGRESS").is_some();
             ::bach::net::monitor::on_packet_sent(move |packet| {
                 let t = now_us();
+                npk += 1;
+                if progress && ((npk % 20000 < 6 && npk > 100000) || (t > 6_100_000 && npk < 100000)) {
+                    let mut raw = packet.transport.payload().to_vec();
+                    let d = match s2n_quic_dc::packet::stream::decoder::Packet::decode(s2n_codec::DecoderBufferMut::new(&mut raw), (), 16) {
+                        Ok((p, _)) => format!("stream tag={:?} pn={} off={} len={} fin={:?} retx={}", p.tag(), p.packet_number(), p.stream_offset(), p.payload().len(), p.final_offset(), p.is_retransmission()),
+                        Err(_) => "not a stream packet".to_string(),
+                    };
+                    eprintln!("PKT n={npk} t={t} len={} {}->{} {d}", packet.transport.payload().len(), packet.source(), packet.destination());
+                }
                 if server_ip.is_none() && packet.destination().port() == 443 { server_ip = Some(packet.destination().ip()); }
                 let to_server = Some(packet.destination().ip()) == server_ip;
                 if gone { return ::bach::net::monitor::Command::Drop; }
@@ -360,6 +376,25 @@ fn run_sim_here(p: Plan) -> Vec<Value> {
                 }
                 futures_join_all(handles).await;
                 emit(json!({"ev": "end"}));
+                if let Some((path, reset)) = LINGER_OUT.get() {
+                    // the client endpoint stays alive meanwhile: streams the application is done with are still being
+                    // flushed by the library's workers
+                    let keep = client.clone();
+                    spawn(async move {
+                        Duration::from_secs(90).sleep().await;
+                        drop(keep);
+                        emit(json!({"ev": "lingering"}));
+                        let evs = EV.with(|e| std::mem::take(&mut *e.borrow_mut()));
+                        let mut out = TraceOut::new(path);
+                        out.emit(serde_json::from_str(reset).unwrap());
+                        let mut bytes = 0u64;
+                        for e in evs { if e["ev"] == "r" { bytes += e["len"].as_u64().unwrap(); } out.emit(e); }
+                        out.emit(json!({"ev": "run_end"}));
+                        let n = out.finish();
+                        println!("RESULT {}", json!({"events": n, "runs": 1, "bytes_read": bytes, "panics": 0}));
+                        std::process::exit(0);
+                    });
+                }
             }
             .group("client")
             .primary()
@@ -398,12 +433,16 @@ pub fn sim_record(args: &[String]) -> Value {
     let mut out = TraceOut::new(&args[2]);
     let mut rng = StdRng::seed_from_u64(seed ^ 0xc20);
     let (mut bytes, mut panics) = (0u64, 0u64);
+    let mut lingering = 0u64;
     // optional 4th argument: run only the plan with this index, in this process
     let only: Option<usize> = args.get(3).and_then(|x| x.parse().ok());
     let plans: Vec<Plan> = (0..count).map(|k| plan(seed.wrapping_mul(1000) + k as u64, &mut rng, k)).collect();
     if let Some(k) = only {
         let p = plans[k].clone();
-        out.emit(json!({"ev": "reset", "transport": "udp-sim", "plan": serde_json::to_value(&p).unwrap()}));
+        if std::env::var_os("VERIF_PLAN").is_some() { eprintln!("PLAN {}", serde_json::to_string(&p).unwrap()); }
+        let reset = json!({"ev": "reset", "transport": "udp-sim", "plan": serde_json::to_value(&p).unwrap()});
+        let _ = LINGER_OUT.set((args[2].clone(), reset.to_string()));
+        out.emit(reset);
         for e in run_sim(p) {
             if e["ev"] == "r" { bytes += e["len"].as_u64().unwrap(); }
             if e["ev"] == "panic" { panics += 1; }
@@ -433,6 +472,7 @@ pub fn sim_record(args: &[String]) -> Value {
                 let e: Value = serde_json::from_str(l).unwrap();
                 if e["ev"] == "r" { bytes += e["len"].as_u64().unwrap(); }
                 if e["ev"] == "panic" { panics += 1; }
+                if e["ev"] == "lingering" { lingering += 1; }
                 out.emit(e);
             }
         } else {
@@ -443,7 +483,7 @@ pub fn sim_record(args: &[String]) -> Value {
         }
     }
     let n = out.finish();
-    json!({"events": n, "runs": count, "bytes_read": bytes, "panics": panics})
+    json!({"events": n, "runs": count, "bytes_read": bytes, "panics": panics, "runs_still_busy_90s_after_the_client_finished": lingering})
 }
 
 /// real sockets over loopback: both transports, no faults
